@@ -140,6 +140,30 @@ def directed_families(ctx):
                 nocom = 'calc(' + nocom[5:]
             if v1 is None or nocom != ('calc(%s)' % expr).replace(' ', '') or len(got) != len(want) or len(got[0][2]) != len(want[0][2]):
                 ctx.violation('denotation', case, 'width reads %r (without comments %r), expected calc(%s); sheet %r' % (v1, nocom, expr, got), KNOWN_PRED)
+    # * and / need no white space, on either side or both
+    for expr, want_ in (('1px* 2', '1px*2'), ('1px *2', '1px*2'), ('1px*2', '1px*2'), ('6em/ 3', '6em/3'), ('6em /3', '6em/3'), ('1px* 2 + 3px/ 4', '1px*2+3px/4')):
+        text = 'a{width:calc(%s);top:0}' % expr
+        ctx.case(text)
+        try:
+            sh = parse(text)
+            v1 = sh.cssRules[0].style.getPropertyValue('width') if sh.cssRules.length else ''
+        except Exception as e:
+            ctx.violation('raises', {'text': text, 'family': 'calc-operators'}, '%s: %s' % (type(e).__name__, e), KNOWN_PRED)
+            continue
+        if v1.replace(' ', '') != 'calc(%s)' % want_:
+            ctx.violation('denotation', {'text': text, 'family': 'calc-operators'}, 'width reads %r' % v1, KNOWN_PRED)
+    # the url( keyword may be written with escapes wherever a URI token is read
+    for text, attr, want_ in (('@import ur\\l(x.css);', 'href', 'x.css'), ('@import \\75rl( "y.css" ) tv;', 'href', 'y.css'),
+                              ('@namespace p U\\52L(http://n); p|a{l:0}', 'namespaceURI', 'http://n'), ('@x u\\rl(z) w;', 'cssText', '@x url(z) w;')):
+        ctx.case(text)
+        try:
+            sh = parse(text)
+            got_ = getattr(sh.cssRules[0], attr) if sh.cssRules.length else None
+        except Exception as e:
+            ctx.violation('raises', {'text': text, 'family': 'escaped-url-keyword'}, '%s: %s' % (type(e).__name__, e), KNOWN_PRED)
+            continue
+        if got_ != want_:
+            ctx.violation('denotation', {'text': text, 'family': 'escaped-url-keyword'}, '%s is %r, expected %r' % (attr, got_, want_), KNOWN_PRED)
     # comments inside the declaration block of a margin box
     for text in ('@page{@top-left{/*c*/ left:0 /*d*/}}', '@page { margin: 0; @bottom-center { content: "x" /*e*/; /*f*/ } }'):
         case = {'text': text, 'family': 'margin-box-comments'}
